@@ -91,7 +91,7 @@ Qed.
 Corollary single_plain v :
   xsorted v = true -> x_has_secret v = false -> (x_depth v <= big_fuel)%nat -> x_of_single v = Some v.
 Proof.
-  intros Hs Hsec Hd. rewrite (export_unexport big_fuel big_fuel false v Hs Hd Hd).
+  intros Hs Hsec Hd. rewrite (export_unexport (S (x_depth v)) big_fuel false v Hs ltac:(lia) Hd).
   rewrite x_inherit_plain; [reflexivity|]. rewrite <- xhs_xany. exact Hsec.
 Qed.
 
